@@ -199,3 +199,10 @@ Definition crop_args (ndim : nat) (center : list Q) (shape : Z + list Z) : optio
 Definition subimage {C A} (ndim : nat) (im : cimage C A) (center : list Q) (shape : Z + list Z)
   : option (cimage C A) :=
   match crop_args ndim center shape with Some (ex, ey) => Some (crop im ex ey) | None => None end.
+
+(** ** second executable instance: the same rational field with every result reduced to lowest terms.
+    Long folds (Welford pushes, least-squares sums) square the denominators at every step on [QO];
+    [QOr] keeps them small.  Both instances are linked to [RO] by the same lemma (Lemmas.v, [Link]). *)
+Definition QOr : Ops Q :=
+  mkOps Q 0%Q 1%Q (fun a b => Qred (a + b)) (fun a b => Qred (a * b)) (fun a b => Qred (a - b)) Qopp
+        (fun a => Qred (/ a)) Qltb Qle_bool Qeq_bool (fun z => inject_Z z).
